@@ -254,7 +254,7 @@ func runBucket(t *testing.T, c *Case) *result {
 					res.tags["stale-false"]++
 				}
 				if st != all {
-					res.violate(c, "stale-check-reads-last-heap-slot", fmt.Sprintf("op %d: IsStale returned %v but all-items-expired is %v (%d items)", i, st, all, len(before)))
+					res.violate(c, "stale-verdict-not-all-items-expired", fmt.Sprintf("op %d: IsStale returned %v but all-items-expired is %v (%d items)", i, st, all, len(before)))
 				}
 				if n := len(before); n > 1 {
 					last := before[n-1].Priority
@@ -460,6 +460,17 @@ func runStore(t *testing.T, c *Case) *result {
 			}
 			fp := a.Fingerprint()
 			old, had := prev[fp]
+			if had {
+				if (a.EndsAt.After(old.StartsAt) && a.EndsAt.Before(old.EndsAt)) || (a.StartsAt.After(old.StartsAt) && a.StartsAt.Before(old.EndsAt)) {
+					if a.UpdatedAt.Before(old.UpdatedAt) {
+						res.tags["put-merge-stored-is-younger"]++
+					} else {
+						res.tags["put-merge"]++
+					}
+				} else {
+					res.tags["put-existing-no-merge"]++
+				}
+			}
 			if err := alerts.Put(ctx, a); err != nil {
 				t.Fatalf("Put: %v", err)
 			}
@@ -753,10 +764,24 @@ func runSil(t *testing.T, c *Case) *result {
 							res.tags["info-wire-form-over-max-size"]++
 						}
 					}
+					var prevSil *pb.Silence
+					for _, x := range before {
+						if x.Id == origID {
+							prevSil = x
+						}
+					}
 					if origID != "" && sil.Id != origID {
 						res.tags["set-replace"]++
+						if prevSil != nil && now.After(prevSil.EndsAt.AsTime()) {
+							res.tags["set-replace-prev-already-expired"]++
+						} else {
+							res.tags["set-replace-prev-expired-by-set"]++
+						}
 					} else if origID != "" {
 						res.tags["set-update"]++
+						if prevSil != nil && !prevSil.UpdatedAt.AsTime().Before(now) {
+							res.tags["set-update-same-instant-no-change"]++
+						}
 					} else {
 						res.tags["set-create"]++
 					}
